@@ -124,7 +124,7 @@ def _w_concrete(job):
 def _w_conformance(seed):
     from pyvc import models
 
-    return models.conformance(seed)
+    return models.conformance(seed) + models.conformance_repo(seed)
 
 
 # ------------------------------------------------------------------------------ helpers
@@ -311,7 +311,7 @@ def do_check(a):
     if diff_bad:
         engine_errors.extend("differential: " + d for d in diff_bad)
     if conf:
-        engine_errors.append(f"model conformance failed: {conf[:3]}")
+        engine_errors.append(f"model conformance failed (library model differs from the real function; proofs using it are void): {conf[:3]}")
 
     # ---- lock
     lock_key = prop if tier == "quick" else prop + ":thorough"
